@@ -249,6 +249,18 @@ fn out_of_range<L: fmt::Debug, R: fmt::Debug>(left: L, op: &'static str, right: 
     }
 }
 
+/// A duration as a count of nanoseconds: chrono multiplies and divides by an `i32` only, while
+/// `1ns * 3000000000` is a perfectly good 3s.
+fn duration_nanos(d: Duration) -> i128 {
+    i128::from(d.num_seconds()) * 1_000_000_000 + i128::from(d.subsec_nanos())
+}
+
+/// The duration of that many nanoseconds, if chrono can represent it.
+fn duration_of_nanos(nanos: i128) -> Option<Duration> {
+    let secs = i64::try_from(nanos.div_euclid(1_000_000_000)).ok()?;
+    Duration::new(secs, nanos.rem_euclid(1_000_000_000) as u32)
+}
+
 /// Text that holds an integer takes part in `+`, `-` and `*` as that integer, not as the nearest
 /// double (every other text is coerced to a double by `binary_op`).
 fn int_text(v: Value) -> Value {
@@ -317,18 +329,14 @@ impl Mul for Value {
 
     fn mul(self, rhs: Self) -> Self::Output {
         match (int_text(self), int_text(rhs)) {
-            (Value::Duration(ld), Value::Int(ri)) => i32::try_from(ri)
-                .ok()
-                .and_then(|factor| ld.checked_mul(factor))
-                // chrono only checks the i64 range of the seconds: a product beyond its own MAX panics later
-                .filter(|d| *d >= Duration::MIN && *d <= Duration::MAX)
+            (Value::Duration(ld), Value::Int(ri)) => duration_nanos(ld)
+                .checked_mul(i128::from(ri))
+                .and_then(duration_of_nanos)
                 .map(Value::Duration)
                 .ok_or_else(|| out_of_range(ld, "*", ri)),
-            (Value::Int(li), Value::Duration(rd)) => i32::try_from(li)
-                .ok()
-                .and_then(|factor| rd.checked_mul(factor))
-                // chrono only checks the i64 range of the seconds: a product beyond its own MAX panics later
-                .filter(|d| *d >= Duration::MIN && *d <= Duration::MAX)
+            (Value::Int(li), Value::Duration(rd)) => duration_nanos(rd)
+                .checked_mul(i128::from(li))
+                .and_then(duration_of_nanos)
                 .map(Value::Duration)
                 .ok_or_else(|| out_of_range(li, "*", rd)),
             (Value::Float(lf), Value::Float(rf)) => Ok(Value::from_float((lf * rf).0)),
@@ -347,9 +355,9 @@ impl Div for Value {
     fn div(self, rhs: Self) -> Self::Output {
         // text that holds an integer divides a duration like that integer (as in `*`)
         match (self, int_text(rhs)) {
-            (Value::Duration(ld), Value::Int(ri)) => i32::try_from(ri)
-                .ok()
-                .and_then(|divisor| ld.checked_div(divisor))
+            (Value::Duration(ld), Value::Int(ri)) => duration_nanos(ld)
+                .checked_div(i128::from(ri))
+                .and_then(duration_of_nanos)
                 .map(Value::Duration)
                 .ok_or_else(|| out_of_range(ld, "/", ri)),
             (left, right) => left.binary_op(&f64::div, "/", &right),
